@@ -370,6 +370,27 @@ def build() -> Check:
                           "and not after the pagination loop - completed operations on later pages are ignored and their log lines are emitted again",
                           where=f"line {x.lineno}", cell=a)
 
+    # R3 the boundary is evaluated once after the history is loaded and before the handler starts: track_replay only runs when an operation is *left*, so a
+    # history without any completed operation (a first invocation whose state was paginated, a step whose retry is pending) would otherwise keep the
+    # logger muted while the first operation - possibly a newly executed step - runs
+    from sa.protocol import wrapper_traces as _wt
+    bad_b = []
+    n_started = 0
+    for t in _wt(pm, faults=False):
+        evs_ = t.events
+        fetch_ = [i for i, e in enumerate(evs_) if e.kind == "FETCH"]
+        start_ = [i for i, e in enumerate(evs_) if e.kind in ("RESULT",)]
+        if not fetch_ or not start_:
+            continue
+        n_started += 1
+        if not any(e.kind == "TRACK" for e in evs_[fetch_[0]:start_[0]]):
+            bad_b.append(t)
+    ck.floor("wrapper_paths_reaching_the_handler", n_started, 5)
+    ck.ob("R3.boundary-evaluated-before-the-handler-runs", fn_construct(wrapper), not bad_b,
+          "between loading the history and starting the handler the replay boundary is never evaluated: with a history that holds no completed operation "
+          "([EXECUTION, STEP(READY)], or a first invocation whose state is paginated) the logger stays muted until the first operation has been left - "
+          "the log calls inside a newly executed step are swallowed")
+
     # R4 the replay boundary counts exactly the operations that can never change again (an operation in READY/PENDING/STARTED still has
     # work to do in this invocation: counting it keeps the logger muted while new code runs; leaving a terminal status out un-mutes early)
     from sa.common import replay_completed_statuses
